@@ -77,7 +77,7 @@ for d in sorted(glob.glob(SRC + '/C??/[0-9]')) + sorted(glob.glob('/tmp/mut2/C??
     rows.append((mid, meta.get('needs', ''), det))
 props = ['C02', 'C04', 'C06', 'C08', 'C14', 'C15', 'C16', 'C17', 'C19', 'C20']
 with open(os.path.join(DST, 'MATRIX.md'), 'w') as f:
-    f.write('# Seeded changes x checks (quick tier)\n\n1 = the check reported a VIOLATION (exit 1), 0 = silent, 2 = harness fault. '
+    f.write('# Seeded changes x checks (quick tier)\n\n1 = the check reported a VIOLATION (exit 1), 0 = silent, 2 = harness fault, - = that pair was not run (the full matrix was run for rounds 1 and 2; later rounds were run against the check of their own property, and against C02 or C15 where the change needs a mask or an allocation failure). '
             'The diagonal block (a change against the check of the property it was written to break) is the sensitivity result; '
             'off-diagonal 1s are changes that really break that other property as well (see the classes in each meta.json), not false alarms.\n\n')
     f.write('| change | ' + ' | '.join(props) + ' | needs |\n|---|' + '---|' * (len(props) + 1) + '\n')
